@@ -13,6 +13,21 @@ def kindName (k : Kind) : String :=
 
 def trName : Tr → String | .send => "Send" | .sync => "Sync"
 
+def nodeName (n : Node) : String :=
+  (repr n.1).pretty.replace "ALock.Markers.Ty." "" ++ (if n.2 == Mode.own then "(owned)" else "(shared)")
+
+/-- a witness path to a node whose atoms are not allowed (depth-first, fuel-bounded) -/
+def findPath (k : Kind) : Nat → List Node → Node → Option (List Node)
+  | 0, _, _ => none
+  | f + 1, seen, n =>
+    if !atomsOK facts k n then some [n]
+    else
+      (succs facts k n).foldl (fun acc m =>
+        match acc with
+        | some p => some p
+        | none => if seen.contains m then none else
+            (findPath k f (n :: seen) m).map (n :: ·)) none
+
 def main : IO Unit := do
   for x in Ty.all do
     for tr in [Tr.send, Tr.sync] do
@@ -23,9 +38,8 @@ def main : IO Unit := do
         IO.println s!"row {repr x |>.pretty} {trName tr} {kindName k} accepted={acc} sound={ok} needSend={nd.1} needSync={nd.2}"
         if acc && !ok then
           -- the offending node
-          let l := reachSet facts k x tr
-          let bad := l.filter fun n => !atomsOK facts k n
-          IO.println s!"BAD marker {repr x |>.pretty} {trName tr} {kindName k} via={bad.map fun n => (repr n.1).pretty ++ (if n.2 == Mode.own then ":owned" else ":shared")}"
+          let path := (findPath k 12 [] (start x tr)).getD []
+          IO.println s!"BAD marker {repr x |>.pretty} {trName tr} {kindName k} via={" -> ".intercalate (path.map nodeName)}"
   for x in Ty.all do
     IO.println s!"variance {repr x |>.pretty} covariant={facts.covariant x} canMut={canMutB x}"
     if facts.covariant x && !noMutB x then
